@@ -52,8 +52,8 @@ pub(crate) fn crop_source_window(
         return (String::new(), 1);
     }
 
-    // Keep snippet coordinates aligned with parsers that ignore a leading UTF-8 BOM.
-    let text = text.strip_prefix('\u{FEFF}').unwrap_or(text);
+    // (A leading UTF-8 BOM, which the parser ignores, has been removed by the callers: removing
+    // one here as well would drop a second mark, which the parser counts as a character.)
 
     // Map absolute YAML line to the coordinates within `text`.
     let absolute_row = location.line as usize;
